@@ -581,6 +581,7 @@ def attr_vocabulary(rng):
     return blocks
 
 
+PLAIN_NLRIS = ['180a0001', '10ac10', '200a000001', '080a', '00', '19c0000280', '0f0a00']
 NLRIS = ['180a0001', '00000001180a0001', '00000001' + '180a0001' + '00000002' + '10ac10', '080a', '200a000001', '00', '0000000100',
          '180a0001' + '10ac10', '19c0000280']
 
@@ -625,7 +626,7 @@ OPEN_CAPS = [
 EOR_BODIES = ['00000000', '00000007900f0003000201', '00000007900f0003000180']
 
 
-def gen_message(rng, vocab, nlris, conf_pool, prev_block):
+def gen_message(rng, vocab, nlris, conf_pool, prev_block, ap=False):
     """-> message dict (session chosen by the caller)"""
     x = rng.random()
     if x < 0.74:
@@ -637,10 +638,19 @@ def gen_message(rng, vocab, nlris, conf_pool, prev_block):
         else:
             block = b''.join([ORIGIN, tlv(0x40, 2, bytes.fromhex(rng.choice(ASPATHS))), NH])
         z = rng.random()
+
+        def nl():
+            # mostly well-formed for the session (path id present iff ADD-PATH was negotiated for ipv4 unicast);
+            # sometimes the very same NLRI bytes whatever the session
+            if rng.random() < 0.25:
+                return bytes.fromhex(rng.choice(nlris))
+            plain = bytes.fromhex(rng.choice(PLAIN_NLRIS))
+            return (struct.pack('!L', rng.choice([1, 2, 7])) + plain) if ap else plain
+
         if z < 0.70:
-            body = upd(block, bytes.fromhex(rng.choice(nlris)))
+            body = upd(block, nl())
         elif z < 0.78:
-            body = upd(block, b'', bytes.fromhex(rng.choice(nlris)))
+            body = upd(block, b'', nl())
         elif z < 0.84:
             body = upd(block)  # attributes only
         elif z < 0.90:
@@ -679,10 +689,12 @@ def gen_sequence(rng, sid, length, conf_pool):
         vocab += attr_vocabulary(rng)[:2]
     nlris = rng.sample(NLRIS, 3)
     msgs, prev = [], None
-    sess_pool = rng.sample(range(len(SESSIONS)), rng.choice([2, 3, 4, 4]))
+    sess_pool = rng.sample(range(len(SESSIONS)), rng.choice([2, 3, 4, 4, 5]))
     for _ in range(length):
-        m = gen_message(rng, vocab, nlris, conf_pool, prev)
-        m['s'] = rng.choice(sess_pool)
+        sess = rng.choice(sess_pool)
+        spec = SESSIONS[sess]
+        m = gen_message(rng, vocab, nlris, conf_pool, prev, ap=(spec['addpath'] == 'all' or [1, 1] in spec['addpath']))
+        m['s'] = sess
         if m['t'] == 2 and m.get('block'):
             prev = bytes.fromhex(m['block'])
         if m['t'] == 2 and m['hex'] in EOR_BODIES and rng.random() < 0.5:
@@ -1127,6 +1139,45 @@ def report_violations(run, viol, chunks, cleared, rng):
         m = chunks[ci][si]['messages'][mi]
         run.fail_case(f'{kind}-unshrunk:{describe_msg(m)["type"]}', 'difference seen in a long run, not reproduced by any two-message pair',
                       {'message': describe_msg(m), 'differs_at': paths, 'chunk': ci, 'sequence': chunks[ci][si]['id'], 'index': mi})
+
+
+def _msg_of(desc):
+    names = [x['name'] for x in SESSIONS]
+    code = {'OPEN': 1, 'UPDATE': 2, 'NOTIFICATION': 3, 'KEEPALIVE': 4, 'ROUTE-REFRESH': 5}[desc['type']]
+    m = {'s': names.index(desc['session']['name']), 't': code, 'hex': desc['body_hex']}
+    if desc.get('entry', 'reactor') != 'reactor':
+        m['entry'] = desc['entry']
+    return m
+
+
+def replay(path):
+    """re-run one stored witness in brand-new interpreters; exit 1 when it still fails"""
+    from harness import common
+
+    d = json.load(open(path))
+    case = d.get('case', d)
+    try:
+        if 'second' in case:
+            a, b = _msg_of(case['first']), _msg_of(case['second'])
+            both, _ = run_child({'mode': 'fresh', 'sessions': SESSIONS, 'messages': [a, b]}, 'rpa')
+            alone, _ = run_child({'mode': 'fresh', 'sessions': SESSIONS, 'messages': [b]}, 'rpb')
+            bad = both is None or alone is None or strip(both['obs'][1]) != strip(alone['obs'][0])
+            where = [] if both is None or alone is None else diff_paths(strip(both['obs'][1]), strip(alone['obs'][0]))[:8]
+        elif 'kept' in case:
+            a, b = _msg_of(case['kept']), _msg_of(case['later'])
+            out, _ = run_child({'mode': 'keep', 'sessions': SESSIONS, 'pairs': [[a, b]]}, 'rpk')
+            bad = out is None or out['obs'][0][0] != out['obs'][0][1]
+            where = [] if out is None else diff_paths(out['obs'][0][0], out['obs'][0][1])[:8]
+        else:
+            print(f'[{PID}] replay {path}: not a two-message witness')
+            return 2
+    finally:
+        common.cleanup()
+    if bad:
+        print(f'VIOLATION property={PID} replay={path} differs_at={where}')
+        return 1
+    print(f'[{PID}] replay {path}: passes (the second message decodes as it does alone / the kept object is unchanged)')
+    return 0
 
 
 if __name__ == '__main__':
